@@ -164,6 +164,7 @@ def run(ctx):
                     ctx.corr_fail('mergesort', 'driver: ' + spec, case)
                 else:
                     ctx.corr_fail('mergesort', 'real mergesort == sort(cat) but differs from the model', case)
+        util.many_chunk_cases(etl, rng, ctx, 'sort', ctx.thorough())
     finally:
         shutil.rmtree(tmpd, ignore_errors=True)
 
